@@ -707,6 +707,14 @@ def _find_adt_aggs(v, adt, out, depth=0):
 
 
 # ---------------------------------------------------------------------- the value slot of a channel state
+def _has_param(v, depth=0):
+    if not isinstance(v, tuple) or depth > 8:
+        return False
+    if v and v[0] == 'param':
+        return True
+    return any(_has_param(x, depth + 1) for x in v if isinstance(x, tuple))
+
+
 def slot_discipline(R, E, F, CG, state, rule, writers=('send',), may_take=True):
     """Over EVERY transition of the state (its entry methods and any function outside the state layer that mutates it
     directly): the value slot is assigned only by the listed writer methods, and it is emptied (take / replace /
@@ -714,13 +722,25 @@ def slot_discipline(R, E, F, CG, state, rule, writers=('send',), may_take=True):
     may_take=False: never emptied at all (broadcast flavours deliver clones)."""
     from rl import entry_methods
     n = 0
-    for m in entry_methods(F, CG, state):
+    # judged at the level of the public operations (state methods inlined): a private state method such as
+    # `store(outcome: Option<T>)` that both send and close go through is then seen with the argument each passes
+    mod = state.rsplit('::', 1)[0] + '::'
+    layer_paths = set(m['path'] for m in F.methods_of(state, inherent_only=False))
+    ops = [f for f in F.raw['fns'] if f['kind'] != 'closure' and f['path'].lstrip('<').startswith(mod)
+           and f['path'] not in layer_paths and f.get('impl_adt') != state
+           and any(b['term']['k'] == 'call' and 'fn' in b['term']['func'] and
+                   b['term']['func']['fn']['path'].startswith('lock_api::') and
+                   b['term']['func']['fn']['name'] == 'lock' for b in f['blocks'] if not b['cleanup'])]
+    if not ops:
+        raise CheckerError('anchor=no public operation locks %s' % state)
+    for m in ops:
         for path in E.run(m['path']):
             if path.exit != 'return':
                 continue
             for e in path.events:
                 loc = e.get('loc')
-                if not loc or loc[:1] != (('P', 'self'),) or fields_of(loc)[:1] != ('value',):
+                if not loc or fields_of(loc)[-1:] != ('value',) or not (
+                        loc[:1] == (('P', 'self'),) and m['path'] in F.alias_fns or '<locked>' in loc):
                     continue
                 if e['k'] == 'write' and not any(t['k'] in ('take', 'replace') and t['loc'] == loc and t.get('ln') == e.get('ln')
                                                  for t in path.events):
@@ -733,8 +753,8 @@ def slot_discipline(R, E, F, CG, state, rule, writers=('send',), may_take=True):
                                where(F, e), {'trace': trace_summary(path)})
                     elif e['val'] == NONE and may_take:
                         R.ok(rule, '%s|None written over an empty slot' % m['path'])
-                    elif m.get('impl_adt') == state and m.get('name') in writers:
-                        R.ok(rule, '%s|slot assigned by %s' % (m['path'], m.get('name')))
+                    elif m.get('name') in writers and _has_param(e['val']):
+                        R.ok(rule, '%s|slot assigned by %s with the caller\'s value' % (m['path'], m.get('name')))
                     elif e['val'] == NONE and not may_take:
                         R.fail(rule, [m['path'], 'slot-cleared'], '%s clears the value slot' % m['path'], where(F, e),
                                {'trace': trace_summary(path)})
